@@ -6,7 +6,7 @@ import os
 import re
 import framework as fw
 
-TIE = []
+TIE = ["Nsq.Tie.ToolsAudit7"]
 PROPS = ["Nsq.Props.C20N2NTool", "Nsq.Props.C20Refuse", "Nsq.Props.C20Get"]
 N2N_FILES = ["e8/n2n_giveup_test.go"]
 TONSQ_FILES = ["e8/tonsq_refuse_test.go"]
